@@ -263,6 +263,16 @@ def classify(got_ignored, models):
     return None
 
 
+def write_ignore(rng, path, lines):
+    """Writes an ignore file; a third of them carry a comment line that is not valid UTF-8 (Latin-1) before, between or after the
+    patterns - such a line is no pattern, and the lines after it still count."""
+    raw = [l.encode() for l in lines]
+    if rng.random() < 0.35:
+        raw.insert(rng.randint(0, len(raw)), b"# r\xe9sultats g\xe9n\xe9r\xe9s")
+    with open(path, "wb") as f:
+        f.write(b"\n".join(raw) + b"\n")
+
+
 def hg_lines(rng, dirs):
     lines = []
     syntax = "regexp"
@@ -427,12 +437,10 @@ def run_job(job):
         elif tool == "hg":
             os.mkdir(os.path.join(repo, ".hg"))
             lines = hg_lines(rng, dirs)
-            with open(os.path.join(repo, ".hgignore"), "w") as f:
-                f.write("\n".join(lines) + "\n")
+            write_ignore(rng, os.path.join(repo, ".hgignore"), lines)
         else:
             lines = gen_patterns(rng, dirs, "docker")
-            with open(os.path.join(repo, ".dockerignore"), "w") as f:
-                f.write("\n".join(lines) + "\n")
+            write_ignore(rng, os.path.join(repo, ".dockerignore"), lines)
         snap = tree.snapshot(repo)
         ignored_quirk = None
         rels = [e.rel for e in snap if not (e.rel == ".git" or e.rel.startswith(".git/") or e.rel == ".hg" or e.rel.startswith(".hg/"))]
